@@ -179,11 +179,12 @@ type obs struct {
 	oerr     string
 	creds    []string
 	journal  []string
+	raw      []string // journal as spelled by refstore (TerminateSession carries its arguments)
 	status   int
 }
 
 func observe(e env, fl flow, resp *opfix.Resp) obs {
-	o := obs{hit: e.f.Store.FaultHit, journal: journalOf(e), status: resp.Status}
+	o := obs{hit: e.f.Store.FaultHit, journal: journalOf(e), raw: e.f.Store.JournalCopy(), status: resp.Status}
 	if resp.Panic != "" {
 		o.panicked = true
 		return o
@@ -245,6 +246,7 @@ func (o obs) coq() string {
 type plan struct {
 	at     int    // k (0 = none)
 	method string // every call of this method ("" = none)
+	raw    string // its journal spelling, which is what refstore.FaultMethod compares with
 	kind   string // error | deadline
 }
 
@@ -275,7 +277,7 @@ func run(fl flow, r opfix.Router, in incid, p plan) (o obs, prepErr string) {
 		return obs{}, pe
 	}
 	st.ResetJournal()
-	st.FaultAt, st.FaultMethod, st.FaultKind = p.at, p.method, p.kind
+	st.FaultAt, st.FaultMethod, st.FaultKind = p.at, p.raw, p.kind
 	var resp *opfix.Resp
 	if pe := drv.Catch(func() { resp = send() }); pe != "" { // opfix.Do already recovers handler panics
 		return obs{panicked: true, hit: st.FaultHit, journal: journalOf(e)}, ""
@@ -327,18 +329,26 @@ func main() {
 				default:
 					tags = append(tags, "plan=none")
 				}
-				w.Add(emit.Case{Input: emit.Ctor("In", router, fl.coq, p.coq()), Observed: o.coq(), Tags: tags,
+				w.Add(emit.Case{Input: emit.Ctor("Req", router, fl.coq, p.coq()), Observed: o.coq(), Tags: tags,
 					Human: map[string]any{"status": o.status, "class": o.class, "error": o.oerr, "creds": o.creds, "journal": o.journal, "hit": o.hit, "panic": o.panicked}})
 				if survey {
 					fmt.Printf("%-9s %-28s %-40s %-22s -> %d %s %q %v hit=%v %v\n", r, fl.name, strings.Join(fl.tags, ","), p.coq(), o.status, o.class, o.oerr, o.creds, o.hit, o.journal)
 				}
 			}
 			emitCase(plan{}, base, "")
-			seen := map[string]bool{}
+			// "every call of method m fails": in the quick tier only where it is not the same run as
+			// a k-th-call plan, i.e. for methods the fault-free run calls more than once
+			seen := map[string]string{}
+			count := map[string]int{}
 			var ms []string
-			for _, m := range base.journal {
-				if !seen[m] {
-					seen[m] = true
+			for i, m := range base.journal {
+				count[m]++
+				if _, ok := seen[m]; !ok {
+					seen[m] = base.raw[i]
+				}
+			}
+			for m := range seen {
+				if !cfg.Quick || count[m] > 1 {
 					ms = append(ms, m)
 				}
 			}
@@ -355,7 +365,7 @@ func main() {
 					emitCase(p, o, base.journal[k-1])
 				}
 				for _, m := range ms {
-					p := plan{method: m, kind: kind}
+					p := plan{method: m, raw: seen[m], kind: kind}
 					o, perr := run(fl, r, in, p)
 					runs++
 					if perr != "" {
